@@ -59,6 +59,7 @@ let run mode file =
       let pend = List.concat_map (fun ent -> match String.split_on_char ':' ent with [_; l] -> ids l | _ -> [])
           (if get kv "flpend" = "-" then [] else String.split_on_char ';' (get kv "flpend")) in
       api_free := Some (List.sort compare (ids (get kv "flfree") @ pend))
+    | ["ps"; v] -> (try s.ps <- int_of_string v with _ -> ())      (* the file's actual page size, reported by the harness after Open *)
     | "io" :: kind :: off :: _ :: rest ->
       if rest = ["FAIL"] then (fail_kind := kind; fail_after_meta := !meta_written)
       else if kind = "write" && int_of_string off < 2 * s.ps then meta_written := true
@@ -98,7 +99,7 @@ let run mode file =
        | "open" :: fields ->
          bump "open";
          List.iter (fun f -> match String.split_on_char '=' f with
-           | ["ps"; v] -> s.ps <- int_of_string v | ["nfs"; v] -> s.nfs <- v <> "0" | ["ro"; v] -> s.ro <- v <> "0" | _ -> ()) fields;
+           | ["nfs"; v] -> s.nfs <- v <> "0" | ["ro"; v] -> s.ro <- v <> "0" | _ -> ()) fields;   (* page size: the "ps" line *)
          if s.ro then flag "read-only-open";
          expect res_s "ok" "open"
        | ["close"] -> bump "close"; s.work <- None; Hashtbl.reset s.readers; unmapped := false; expect res_s "ok" "close"
@@ -325,8 +326,13 @@ let run mode file =
                if e <> Spec.ENone then flag ("err-" ^ err_name e) else flag "move";
                (* known finding D4: the destination lies inside the bucket being moved; the reference refuses, the code returns nil *)
                let rec is_prefix a b = match a, b with [], _ -> true | x :: a', y :: b' -> x = y && is_prefix a' b' | _ -> false in
-               if e = Spec.ESameBuckets && is_prefix (p @ [nm]) dstp && res_s = "ok" then d4 := true;
-               expect (canon_empty (arg 0) res_s) (err_name e) api; d4 := false
+               let into_own_subtree = e = Spec.ESameBuckets && is_prefix (p @ [nm]) dstp in
+               if into_own_subtree && res_s = "ok" then d4 := true;
+               (* which error refuses such a move is not the reference's business (the code may find an existing key first):
+                  any refusal agrees, only success is the finding *)
+               if into_own_subtree && res_s <> "ok" && String.length res_s > 0 && res_s.[0] = 'E' then flag "selfmove-refused"
+               else expect (canon_empty (arg 0) res_s) (err_name e) api;
+               d4 := false
              | "put" -> let (e, _) = apply (Spec.OPut (p, expand_val (arg 0), expand_val (arg 1))) in
                if e <> Spec.ENone then flag ("err-" ^ err_name e) else flag "put"; expect res_s (err_name e) api
              | "get" -> (match apply (Spec.OGet (p, expand_val (arg 0))) with
